@@ -239,6 +239,17 @@ def run(chk):
                 chk.fail("tiling", f"{type(corr).__name__}: the cells of the first {n} steps sum to {total:.8g}, the whole triangle is {big:.8g}", info)
             if tri.real < -1e-12:
                 chk.fail("triangle-negative", "the real part of the triangle integral is negative", info)
+            # rectangles of the SAME object: additive in their extent (theorem rectangle_splits), width delta = the square
+            ra = rng.randint(1, 3) * dt
+            rb, rc = ra + rng.randint(1, 2) * dt, ra + rng.randint(3, 4) * dt
+            r_ab = complex(corr.correlation_2d_integral(dt, ra, rb, shape="rectangle", epsrel=eps))
+            r_ac = complex(corr.correlation_2d_integral(dt, ra, rc, shape="rectangle", epsrel=eps))
+            r_bc = complex(corr.correlation_2d_integral(dt, rb, rc, shape="rectangle", epsrel=eps))
+            r_sq = complex(corr.correlation_2d_integral(dt, ra, ra + dt, shape="rectangle", epsrel=eps))
+            s_sq = complex(corr.correlation_2d_integral(dt, ra, shape="square", epsrel=eps))
+            if abs(r_ab + r_bc - r_ac) > 1e-6 * max(abs(r_ac), abs(tri)) or abs(r_sq - s_sq) > 1e-6 * max(abs(s_sq), abs(tri)):
+                chk.fail("rectangle-additivity", f"{type(corr).__name__}: rectangles requested one after the other on one object: rect({ra:.3g},{rb:.3g}) + rect({rb:.3g},{rc:.3g}) "
+                         f"= {r_ab + r_bc:.8g}, rect({ra:.3g},{rc:.3g}) = {r_ac:.8g}; rectangle of width delta {r_sq:.8g}, square {s_sq:.8g}", dict(info, rect=[ra, rb, rc]))
             tau = rng.choice([0.1, 0.7, 2.0])
             cp, cm = complex(corr.correlation(tau)), complex(corr.correlation(-tau))
             if abs(cm - cp.conjugate()) > 1e-6 * max(abs(cp), 1e-12):
